@@ -2,9 +2,12 @@ package main
 
 import (
 	"encoding/hex"
+	"errors"
 	"fmt"
+	"io"
 	"os"
 	"strings"
+	"testing/iotest"
 	"time"
 
 	"github.com/mmcloughlin/addchain/acc"
@@ -263,9 +266,81 @@ func c03EntryPoints(g *Gen, text string, T, L string) {
 	lr := chain(func() (*ir.Program, error) { return acc.LoadReader("s", strings.NewReader(text)) })
 	lf := chain(func() (*ir.Program, error) { return acc.LoadFile(path) })
 	g.Count("entry-points")
+	readerFaultProbe(g, text, T, L)
 	if tr != T || tf != T || lr != L || lf != L {
 		g.Notes = append(g.Notes, fmt.Sprintf("VIOLATION: entry points disagree on text %s: parse.String %s / Reader %s / File %s; LoadString %s / LoadReader %s / LoadFile %s",
 			encHex(text), T, tr, tf, L, lr, lf))
+	}
+}
+
+// readerFaultProbe: the reader entry points under the readers the io.Reader contract allows -- data
+// delivered together with io.EOF, one byte at a time, half reads -- must give what the string entry
+// points give (T = tree dump or "" to skip, L = chain or "err"); a reader that FAILS half-way must make
+// them return an error, never the tree or chain of the prefix read so far.
+func readerFaultProbe(g *Gen, text string, T, L string) {
+	if g.notesViolation() {
+		return
+	}
+	tree := func(r io.Reader) string {
+		var c *ast.Chain
+		var err error
+		if pn := safe(func() { c, err = parse.Reader("s", r) }); pn != "" {
+			return "panic"
+		}
+		if err != nil {
+			return "err"
+		}
+		return c03DumpTree(c)
+	}
+	chain := func(r io.Reader) string {
+		var p *ir.Program
+		var err error
+		if pn := safe(func() { p, err = acc.LoadReader("s", r) }); pn != "" {
+			return "panic"
+		}
+		if err != nil {
+			return "err"
+		}
+		return encInts(p.Chain)
+	}
+	kinds := []struct {
+		name string
+		mk   func() io.Reader
+	}{
+		{"data-with-EOF", func() io.Reader { return iotest.DataErrReader(strings.NewReader(text)) }},
+		{"one-byte", func() io.Reader { return iotest.OneByteReader(strings.NewReader(text)) }},
+		{"half", func() io.Reader { return iotest.HalfReader(strings.NewReader(text)) }},
+	}
+	for _, k := range kinds {
+		if T != "" {
+			if got := tree(k.mk()); got != T {
+				g.Notes = append(g.Notes, fmt.Sprintf("VIOLATION: parse.Reader on a %s reader gives %s, parse.String gives %s (text %s)", k.name, got, T, encHex(text)))
+				return
+			}
+		}
+		if got := chain(k.mk()); got != L {
+			g.Notes = append(g.Notes, fmt.Sprintf("VIOLATION: acc.LoadReader on a %s reader gives %s, acc.LoadString gives %s (text %s)", k.name, got, L, encHex(text)))
+			return
+		}
+	}
+	g.Count("reader-kinds")
+	// a read error after a prefix (cut at every third of the text and just before the end)
+	for _, cut := range []int{len(text) / 3, 2 * len(text) / 3, len(text) - 1} {
+		if cut <= 0 || cut >= len(text) {
+			continue
+		}
+		failing := func() io.Reader {
+			return io.MultiReader(strings.NewReader(text[:cut]), iotest.ErrReader(errors.New("injected read error")))
+		}
+		if got := tree(failing()); got != "err" {
+			g.Notes = append(g.Notes, fmt.Sprintf("VIOLATION: parse.Reader returns %s although the reader failed after %d of %d bytes (text %s)", got, cut, len(text), encHex(text)))
+			return
+		}
+		if got := chain(failing()); got != "err" {
+			g.Notes = append(g.Notes, fmt.Sprintf("VIOLATION: acc.LoadReader returns the chain %s although the reader failed after %d of %d bytes (text %s)", got, cut, len(text), encHex(text)))
+			return
+		}
+		g.Count("reader-fails-midway")
 	}
 }
 
